@@ -11,7 +11,7 @@ Elems == {x, y}
 ListsUpTo(n) == UNION {[1..m -> Elems] : m \in 1..n}
 ValU == {VList(l, 0) : l \in ListsUpTo(3)} \cup {VStr(x, 0), VSet({x}, 0)}
 Dbs0 == UNION {[K -> ValU] : K \in SUBSET Keys}
-ListStates == {[InitServer({1}) EXCEPT !.dbs[0] = d] : d \in Dbs0}
+ListStates == {WithDb0(InitServer({1}), d) : d \in Dbs0}
 
 N(i) == Itoa(i)
 Idx == {N(i) : i \in -5..5} \cup {B("2147483648"), B("-2147483649"), B("9223372036854775807"), B("-9223372036854775808")}
